@@ -8,7 +8,9 @@
    (inv03), so joins need no premise and the exclusions are exactly the known classes; for C02's own quantifier
    Reachable3 (known_step2 on the call, query_pairs_mut sessions) every record satisfies wf_b /\ host_text_ok
    (C03_reachability_full, C03_accessors_reachable).  The first formulation C03_reachability_full_statement
-   (HostWf alone) is refuted.  Section V: the remaining "views agree" clauses. *)
+   (HostWf alone) is refuted.  Section V: the remaining "views agree" clauses; section V2: host() / host_str() / domain() /
+   has_host() agree on every reached record (the IP host text invariant KT, which wf_b does not carry); the serde / FromStr
+   round trips for the records of C02's ReachC4 (C03_round_trips_reach). *)
 From Coq Require Import String.
 From RU Require Import Base.Prelude Base.Utf8 Model.HostT Model.UrlRecord Model.Parser Model.Setters Model.WF
   Proofs.ListN Proofs.C03_WF Proofs.C06_Suffix Proofs.C06_HostNone Proofs.C06_Host Proofs.C06_Segments Proofs.C06_Path
@@ -83,7 +85,7 @@ Theorem C03_concat : forall dbg u, wf_b u = true ->
 Proof. intros dbg u H. apply accessors_reconcatenate. exact H. Qed.
 Print Assumptions C03_concat.
 
-(* overlapping views *)
+(* overlapping views (for an IP host, host_str() against host() needs more than wf_b: section V2, C03_host_views) *)
 Theorem C03_views : forall dbg u, wf_b u = true ->
   has_authority dbg u = Some (has_authority_b u)
   /\ (has_host u = true <-> exists h, host_of u = Some (Some h))
@@ -847,6 +849,17 @@ Example C03_round_trips_reach_inhabited :
   /\ reachc4_example_stmt.
 Proof. split; [exact reachfin_hyps | exact reachc4_example]. Qed.
 
+(* "never split a character" for C02's quantifier: the serialization of every Reachable3 record consists of bytes
+   0x20..0x7E (hypotheses of C03_reachability_full), hence is ASCII and every Position slice is on a character boundary *)
+Theorem C03_reachable_ascii : forall dbg hp hpo hd, HostWf hp hpo hd -> host_nonempty hp hpo -> IpWf hd ->
+  C05_Parser.HostOK hp hpo hd -> C05_Alphabet.IpOKv hd ->
+  forall u, Reachable3 dbg hp hpo hd u -> Forall ok_or_space (ser u) /\ ascii (ser u).
+Proof. exact reach3_ascii. Qed.
+Check C03_reachable_ascii : forall dbg hp hpo hd, HostWf hp hpo hd -> host_nonempty hp hpo -> IpWf hd ->
+  C05_Parser.HostOK hp hpo hd -> C05_Alphabet.IpOKv hd ->
+  forall u, Reachable3 dbg hp hpo hd u -> Forall ok_or_space (ser u) /\ ascii (ser u).
+Print Assumptions C03_reachable_ascii.
+
 (* ---------- V2. host() / host_str() / domain() / has_host() agree on every reached record ---------- *)
 (* C03_views leaves one clause open for wf_b records: for an IP host, host_str() (a slice of the serialization) against
    host() (the stored address).  KT hd u (Proofs/C03_HostKind.v): if the stored host kind is Ipv4(a) / Ipv6(p), the host
@@ -885,6 +898,14 @@ Check C03_host_views : forall hd u, wf_b u = true -> KT hd u ->
   \/ (has_host u = true /\ exists h, C05_Setters.is_ip h /\ host_of u = Some (Some h) /\ host_str u = Some (Some (hd h))
                           /\ domain u = Some None).
 Print Assumptions C03_host_views.
+
+(* KT is not a consequence of wf_b: the record "a://1.2.3.4/" with the stored kind Ipv4(0.0.0.0) is wf_b, its host() is
+   0.0.0.0 and its host_str() is "1.2.3.4" - which is why C03_views stops short of this clause *)
+Example C03_host_views_need_KT :
+  let u := mkUrl [97; 58; 47; 47; 49; 46; 50; 46; 51; 46; 52; 47] 1 4 4 11 (HI_Ipv4 0) None 11 None None in
+  wf_b u = true /\ host_of u = Some (Some (HIpv4 0)) /\ host_str u = Some (Some [49; 46; 50; 46; 51; 46; 52])
+  /\ Host.host_display (HIpv4 0) = [48; 46; 48; 46; 48; 46; 48].
+Proof. vm_compute. repeat split. Qed.
 
 (* every record of reach03j (R4: parse of ANY text, joins against any reached record, the file-path constructors, all 19
    mutators outside the known classes excl03k = F-C03-5, F-C02-2, F-C02-8, parts of F-C02-3 / F-C02-4; F-C02-9 is inside) *)
